@@ -117,6 +117,14 @@ def run(rep: C.Report) -> None:
         rep.add(C.Ob("Ob1-3 kernels", "E1 CrossHair", [], "", verdict=C.NOT_ENCODABLE, detail=f"{type(e).__name__}: {e}"))
 
 
+    try:
+        from props.C04 import template_body_pipeline
+
+        template_body_pipeline(rep, "C12")  # "templates reduced to their includable part" at ingestion uses the same function
+    except Exception as e:  # noqa: BLE001
+        rep.extra["pipeline_error"] = f"{type(e).__name__}: {e}"
+
+
 def replay(r: dict) -> int:
     print(r)
     return 0
